@@ -19,13 +19,13 @@ def state():
     s = getattr(_tl, "s", None)
     if s is None:
         s = _tl.s = {"depth": 0, "stmts": [], "holders": [], "of": [], "session": [],
-                     "dispatch": [], "active": False}
+                     "dispatch": [], "active": False, "work": 0}
     return s
 
 
 def begin():
     s = state()
-    s.update(depth=0, stmts=[], holders=[], of=[], session=[], dispatch=[], active=True)
+    s.update(depth=0, stmts=[], holders=[], of=[], session=[], dispatch=[], active=True, work=0)
     return s
 
 
@@ -96,6 +96,7 @@ def install():
             _bump("analyze")
             top = s["depth"] == 0 and s["active"]
             s["depth"] += 1
+            s["work"] += 1
             ev = None
             if top:
                 ev = {"ord": len(s["stmts"]), "text": sql, "parser": parser}
@@ -108,6 +109,7 @@ def install():
                 raise
             finally:
                 s["depth"] -= 1
+                s["work"] -= 1
             if ev is not None:
                 try:
                     ev["facts"] = holder_facts(h)
@@ -131,7 +133,11 @@ def install():
         def of(metadata_provider, *args):
             s = state()
             _bump("of")
-            res = orig_of(metadata_provider, *args)
+            s["work"] += 1
+            try:
+                res = orig_of(metadata_provider, *args)
+            finally:
+                s["work"] -= 1
             if s["depth"] == 0 and s["active"]:
                 s["of"].append({"n": len(args), "holder": res})
             return res
@@ -157,7 +163,13 @@ def install():
                 except Exception:
                     pass
                 s["session"].append(ev)
-            return orig(self, *a, **k)
+            if key == "deregister":
+                return orig(self, *a, **k)
+            s["work"] += 1
+            try:
+                return orig(self, *a, **k)
+            finally:
+                s["work"] -= 1
 
         setattr(P, name, w)
 
